@@ -261,14 +261,19 @@ TEMPLATES = {
 # segments of a body template may name declarations that need context; give every function block body the same context declarations
 _CONTEXT = 'TYPE\n  c : (red, green) := red;\n  st : STRUCT\n    a : INT;\n  END_STRUCT;\nEND_TYPE\nFUNCTION_BLOCK callee\nVAR_INPUT\n  in1 : BOOL;\n  in2 : INT;\nEND_VAR\nVAR_OUTPUT\n  out1 : BOOL;\nEND_VAR\nEND_FUNCTION_BLOCK\n'
 
+def _selectors(tpl):
+    """the selector segments of a template: ('opt', text) and ('alt', [texts]); ('dep', k, [texts]) is not a selector, its text follows selector k"""
+    return [s for s in tpl if isinstance(s, tuple) and s[0] in ('opt', 'alt')]
+
 def _shapes(tpl):
-    dims = [2 if isinstance(s, tuple) and s[0] == 'opt' else len(s[1]) for s in tpl if isinstance(s, tuple)]
+    dims = [2 if s[0] == 'opt' else len(s[1]) for s in _selectors(tpl)]
     return dims
 
 def _tpl_text(tpl, choice):
     out = []; k = 0
     for s in tpl:
         if isinstance(s, str): out.append(s); continue
+        if s[0] == 'dep': out.append(s[2][choice[s[1]]]); continue
         c = choice[k]; k += 1
         if s[0] == 'opt': out.append(s[1] if c else '')
         else: out.append(s[1][c])
@@ -282,7 +287,7 @@ def _cubes(tpl, shapes):
     """Group the failing shapes of a template into maximal cubes: a selector is replaced by `*` when, the others fixed, every value of it
     that the parser accepts fails.  Deterministic; returns [(role suffix, representative choice, member choices)]."""
     import itertools
-    segs = [s for s in tpl if isinstance(s, tuple)]
+    segs = _selectors(tpl)
     dims = _shapes(tpl)
     fail = {c for c, r in shapes.items() if r[0] == 'fail'}
     indom = {c for c, r in shapes.items() if r[0] in ('fail', 'ok', 'inconclusive')}
@@ -393,4 +398,107 @@ def _prefix_for(d, v):
     """decision trace selecting value v of a selector with d values: branch(v == 0) false, ..., branch(v == val) true  (choose index 0 = condition true)"""
     return [1] * v + ([0] if v < d - 1 else [])
 
-KERNELS = [k1, k2, k3]
+
+# ---------------------------------------------------------------------------------------------- K4 literal *texts* round trip (parse -> render -> parse), spelling symbolic
+_D = ('d', None)          # one symbolic decimal digit
+def _H(lo='0', hi='f'): return ('x', None)
+LITERAL_TEXTS = {
+    # name: (declaration prefix, literal pieces, suffix).  pieces: str | ('d',) decimal digit | ('x',) hex digit | ('b',) binary digit | ('o',) octal digit | ('c', quote) printable character other than quote and $
+    'time_of_day_fraction': ('  x : TIME_OF_DAY := ', ['TOD#12:30:15.', ('d',), ('d',), ('d',)], ';\n'),
+    'time_of_day_fields': ('  x : TIME_OF_DAY := ', ['TIME_OF_DAY#', ('d',), ('d',), ':', ('d',), ('d',), ':', ('d',), ('d',)], ';\n'),
+    'date_and_time_fraction': ('  x : DATE_AND_TIME := ', ['DT#2020-01-01-12:30:15.', ('d',), ('d',)], ';\n'),
+    'date_fields': ('  x : DATE := ', ['D#20', ('d',), ('d',), '-', ('d',), ('d',), '-', ('d',), ('d',)], ';\n'),
+    'duration_seconds_fraction': ('  x : TIME := ', ['T#', ('d',), ('d',), '.', ('d',), 's'], ';\n'),
+    'duration_ms': ('  x : TIME := ', ['TIME#', ('d',), ('d',), ('d',), 'ms'], ';\n'),
+    'duration_minutes_fraction': ('  x : TIME := ', ['T#', ('d',), '.', ('d',), 'm'], ';\n'),
+    'integer_underscore': ('  x : DINT := ', [('d',), '_', ('d',), ('d',)], ';\n'),
+    'hex_integer': ('  x : DINT := ', ['16#', ('x',), ('x',)], ';\n'),
+    'binary_integer': ('  x : DINT := ', ['2#', ('b',), ('b',), ('b',)], ';\n'),
+    'octal_integer': ('  x : DINT := ', ['8#', ('o',), ('o',)], ';\n'),
+    'single_byte_string': ("  x : STRING := ", ["'", ('c', "'"), ('c', "'"), "'"], ';\n'),
+    'double_byte_string': ('  x : WSTRING := ', ['"', ('c', '"'), ('c', '"'), '"'], ';\n'),
+    'string_with_length': ("  x : STRING[", [('d',), ('d',)], "] := 'ab';\n"),
+    'subrange_variable': ('  x : INT(', [('d',), '..', '1', ('d',)], ');\n'),
+}
+
+def _k4_job(job):
+    lname, = job
+    ctx = _CTX; part = Part(); pre, pieces, post = LITERAL_TEXTS[lname]
+    P = ctx.program()
+    k_parse = P.find_fn('ironplc-parser', 'parse_program'); k_write = P.find_fn('ironplc-plc2plc', 'write_to_string')
+    k_eq = P.impl_all.get(('Library', 'PartialEq', 'eq'))
+    k_opt = [k for k in P.items if k[0] == 'ironplc-parser' and re.search(r'ParseOptions as (std::default::)?Default>::default|options::<impl at [^>]*>::default', k[1])]
+    if not k_eq: part.inconc('Library::eq not found'); return part
+    head = 'PROGRAM p\nVAR\n'; tail = 'END_VAR\nEND_PROGRAM\n'
+    holder = {}; st = {}
+    M = Machine(P, stubs=dyn_lexer_stubs(ctx, holder), max_steps=400_000_000)
+    def entry(M):
+        lit = []; st.clear()
+        for i, pc in enumerate(pieces):
+            if isinstance(pc, str): lit += list(pc.encode()); continue
+            b = M.fresh_bv('l%d' % i, 8)
+            if pc[0] == 'd': M.assume(z3.And(z3.UGE(b, 48), z3.ULE(b, 57)))
+            elif pc[0] == 'b': M.assume(z3.Or(b == 48, b == 49))
+            elif pc[0] == 'o': M.assume(z3.And(z3.UGE(b, 48), z3.ULE(b, 55)))
+            elif pc[0] == 'x': M.assume(z3.Or(z3.And(z3.UGE(b, 48), z3.ULE(b, 57)), z3.And(z3.UGE(b, 65), z3.ULE(b, 70))))
+            elif pc[0] == 'c': M.assume(z3.And(z3.UGE(b, 0x20), z3.ULE(b, 0x7E), b != ord(pc[1]), b != 0x24))
+            lit.append(b)
+        st['lit'] = lit
+        text = list((head + pre).encode()) + lit + list((post + tail).encode())
+        fid = Ref(Cell(Agg('FileId', [Str('f.st')])))
+        opts = Ref(Cell(M.call_fn(k_opt[0], []) if k_opt else Agg('ParseOptions', [False])))
+        r1 = M.call_fn(k_parse, [Ref(Cell(Str(text))), fid, opts])
+        if r1.disc != 0: return ('not-a-program', None)
+        lib = r1.f[0]
+        r = M.call_fn(k_write, [Ref(Cell(lib))])
+        if r.disc != 0: return ('render-error', None)
+        out = r.f[0]; st['text'] = out
+        r2 = M.call_fn(k_parse, [Ref(Cell(Str(list(out.b)))), fid, opts])
+        if r2.disc != 0: return ('not-reparsable', None)
+        same = M.call_fn(k_eq[0], [Ref(Cell(lib)), Ref(Cell(r2.f[0]))])
+        return ('ok', same)
+    def on_path(M, pr):
+        part.paths += 1
+        if pr.inconclusive: part.inconc('%s: %s' % (lname, pr.inconclusive)); return
+        s = z3.Solver(); s.add(*pr.pc); s.set('timeout', 60000)
+        def lit_of(m): return bytes(x if isinstance(x, int) else m.eval(x, True).as_long() for x in st['lit']).decode('utf-8', 'replace')
+        def rendered(m):
+            t = st.get('text')
+            return bytes(x if isinstance(x, int) else m.eval(x, True).as_long() for x in t.b).decode('utf-8', 'replace') if t is not None else None
+        def report(kind, what, extra=None):
+            s.push()
+            if extra is not None: s.add(extra)
+            t0 = time.time(); r = s.check(); part.solver_s += time.time() - t0; part.queries += 1
+            if r == z3.unknown: part.inconc('solver unknown')
+            if r == z3.sat:
+                m = s.model(); L = lit_of(m); src = head + pre + L + post + tail
+                part.add('C10/K4/%s/%s' % (lname, kind), '%s literal %s: %s (rendered as %r)' % (lname.replace('_', ' '), L, what, (rendered(m) or '')[-60:]), {'literal': L, 'source': src, 'rendered': rendered(m)}, ('roundtrip', (src,)))
+            s.pop()
+        if pr.panic: part.nontrivial += 1; report('panic', 'parsing, rendering or re-parsing panics: ' + pr.panic.msg[:60]); return
+        kind, same = pr.result
+        if kind == 'not-a-program': return              # literal spellings the parser rejects are outside the domain of the round trip
+        part.nontrivial += 1
+        if kind == 'render-error': report('render-error', 'the renderer fails'); return
+        if kind == 'not-reparsable': report('not-reparsable', 'the rendered text is rejected by the parser'); return
+        report('value-changed', 'the rendered text parses to a different library', z3.Not(tobool(same)) if not isinstance(same, bool) else z3.BoolVal(not same))
+        if len(part.validate) < 1 and s.check() == z3.sat:
+            part.validate.append(('roundtrip', (head + pre + lit_of(s.model()) + post + tail,)))
+        if len(part.samples) < 1: part.samples.append({'literal': lname})
+    M.explore(entry, on_path, max_paths=4000)
+    part.queries += M.stats['smt']; part.encoded = set(M.encoded); part.models = set(M.models_used)
+    return part
+
+@kernel('K4 renderer.literal_text_roundtrip')
+def k4(ctx, kr):
+    global _CTX
+    _CTX = ctx
+    kr.bounds = ('literal spellings with symbolic digits / characters inside `VAR x : T := <literal>; END_VAR` (%s): parse_program -> write_to_string -> parse_program -> Library::eq on the MIR, the lexer lifted on the symbolic source and on the symbolic rendered text; '
+                 'spellings the parser rejects are outside the domain' % ', '.join(LITERAL_TEXTS))
+    for part in par_map(_k4_job, [(l,) for l in LITERAL_TEXTS]): merge_part(kr, part)
+    P = ctx.program()
+    kr.functions = fn_paths(P, getattr(kr, '_enc', set()))[:120] + ['ironplc-parser::<TokenType as Logos>::lex (lifted)']
+    kr.stubs = LC.STUB_NOTES
+    kr.exhaustive = True
+    kr.outside = ['literal spellings other than the listed families; reals (floating point is not encoded)']
+
+KERNELS = [k1, k2, k3, k4]
